@@ -52,7 +52,7 @@ UNITS = [
     open spec fn process_rel<'a, T: Queryable>(&self, state: State<'a, T>, r: State<'a, T>) -> bool { seg_rel(*self, state, r) }
 """,
          ensures=[("rel", "self.process_rel(step, r)")],
-         body_prefix="proof { match self { Segment::Descendant(b) => { lemma_descendant_containers(**b, nodes(step.data), step.root); } _ => {} } }"),
+         body_prefix="proof { match self { Segment::Descendant(b) => { lemma_impl_descendant_containers(**b, nodes(step.data), step.root); } _ => {} } }"),
     Unit(name="Vec<Segment>::process", calls=['Segment::process'], file=J, impl="impl Query for Vec<Segment>", fn="process", order=62,
          trait_method=True, serves=["C01", "C02"],
          impl_extra="""
